@@ -326,6 +326,7 @@ class Lexer:
                         self.path_stack[-1].path.append(int(match.group()))
                         self.pos += match.end() - match.start()
                         self.start = self.pos
+                        self.path_stack[-1].stop = self.pos
                     else:
                         self.error("array indexes must use bracket notation")
                 else:
